@@ -46,7 +46,9 @@ class SymBase:
         """Evaluate one assertion of the property; `cond` may be symbolic (forks)."""
         self.reached += 1
         if not cond:
-            if callable(detail):        # lazy detail: formatting symbolic values concretises them, do it only on failure
+            # lazy detail: formatting symbolic values concretises them.  Under symbolic execution the callable is kept and
+            # evaluated by the explore loop only after the path has been detached from the search tree.
+            if callable(detail) and self.mode != "symbolic":
                 detail = detail()
             if signature in self.soft_signatures:
                 # a recorded known finding: remember it, keep exploring this path for *other* violations
